@@ -2,10 +2,12 @@ module verif/harness
 
 go 1.26.8
 
-require github.com/vapourismo/knx-go v0.0.0
+require (
+	github.com/vapourismo/knx-go v0.0.0
+	golang.org/x/net v0.23.0
+)
 
 require (
-	golang.org/x/net v0.23.0 // indirect
 	golang.org/x/sys v0.18.0 // indirect
 	golang.org/x/text v0.14.0 // indirect
 )
